@@ -10,12 +10,13 @@ from gv.oracle import lcs_len
 ID = "C11"
 LEVEL = "exploration"
 RULE = ("pairs (s,t) of strings: exhaustive over small alphabets/lengths plus sampled long strings "
-        "(shared prefixes/suffixes, repeats, non-BMP); non-trivial = s != t and both non-empty; "
+        "(shared prefixes/suffixes, repeats, non-BMP) and long mostly unrelated strings (100-300 characters, lengths and distances around "
+        "127/128 and 255/256); non-trivial = s != t and both non-empty; "
         "distinct = distinct (s,t,drive mode)")
 ASSUMPTIONS = ["reference = textbook LCS DP (gv/oracle.py:lcs_len)",
                "a Match between unequal characters counts as one removed plus one inserted character"]
-MINIMUMS = {"quick": {"scripts_judged": 60000, "string_edits": 50000, "renderings_judged": 2000},
-            "thorough": {"scripts_judged": 500000, "string_edits": 400000}}
+MINIMUMS = {"quick": {"long_string_scripts_with_distance_over_255": 20, "scripts_judged": 60000, "string_edits": 50000, "renderings_judged": 2000},
+            "thorough": {"long_string_scripts_with_distance_over_255": 300, "scripts_judged": 500000, "string_edits": 400000}}
 
 
 def _strings(alphabet, maxlen):
@@ -39,6 +40,9 @@ def plan(tier, seed):
                           "k": k, "of": nshard, "exhaustive": True, "shard_timeout": 3000})
     for k in range(nsample):
         specs.append({"stratum": "sampled", "n": per, "k": k})
+    for k in range(6 if tier == "quick" else 16):
+        specs.append({"stratum": "long-strings-across-small-integer-widths", "n": 8 if tier == "quick" else 50, "k": k, "long": True,
+                      "case_timeout": 120, "shrink": False})
     for k in range(2 if tier == "quick" else 8):
         specs.append({"stratum": "rendered-marks", "n": 1500 if tier == "quick" else 20000, "k": k, "rendered": True})
     return specs
@@ -59,6 +63,22 @@ def gen_cases(spec, ctx):
                 idx += 1
         return
     r = ctx.rng
+    if spec.get("long"):
+        # magnitude: mostly unrelated strings whose lengths and distances straddle 127/128 and 255/256 (the limits of 8-bit
+        # cells), with a few common islands so that the longest common subsequence is not empty and sits behind many edits
+        for _ in range(spec["n"]):
+            la, lb = (r.choice([100, 126, 127, 128, 129, 200, 254, 255, 256, 257, 300]) for _ in range(2))
+            A, B = r.choice([("ab", "cd"), ("a", "b"), ("abc", "abd"), ("xy", "yz")])
+            s = [r.choice(A) for _ in range(la)]
+            t = [r.choice(B) for _ in range(lb)]
+            for _ in range(r.randint(1, 3)):
+                isl = r.choice(["HELLO", "Q", "WXYZ", "12"])
+                i = r.choice([0, r.randint(0, la), max(0, la - len(isl) - 1), la])
+                j = r.choice([0, r.randint(0, lb), max(0, lb - len(isl) - 1), lb])
+                s[i:i] = isl
+                t[j:j] = isl
+            yield {"s": "".join(s), "t": "".join(t), "mode": r.randrange(3)}
+        return
     if spec.get("rendered"):
         for _ in range(spec["n"]):
             al = r.choice(["ab", "abc", "abcd", "01"])
@@ -204,6 +224,8 @@ def check(case, ctx):
         ctx.count(f"mode{mode}")
         if kept < min(len(s), len(t)):
             ctx.count("lcs_shorter_than_both")
+        if len(s) + len(t) - 2 * ref > 255:
+            ctx.count("long_string_scripts_with_distance_over_255")
         ctx.seen(case, nontrivial=(s != t and bool(s) and bool(t)))
     return diags
 
